@@ -24,6 +24,7 @@ type schedEvent struct {
 	tid   int
 	point string
 	key   string
+	raw   interface{}
 }
 
 type sched struct {
@@ -46,6 +47,17 @@ func goid() int64 {
 }
 
 func (s *sched) nameKey(k interface{}) string {
+	if tt, ok := k.(verifhook.TypeTag); ok {
+		t := tt.Typ.(reflect.Type)
+		n := t.String()
+		if t.Name() != "" {
+			n = t.Name()
+		}
+		if tt.Tag != "" {
+			n += "|" + tt.Tag
+		}
+		return n
+	}
 	if t, ok := k.(reflect.Type); ok {
 		if t.Name() != "" {
 			return t.Name()
@@ -70,7 +82,7 @@ func (s *sched) yield(point string, key interface{}) {
 	}
 	ch := make(chan struct{})
 	s.parked[tid] = ch
-	s.where[tid] = schedEvent{tid, point, s.nameKey(key)}
+	s.where[tid] = schedEvent{tid, point, s.nameKey(key), key}
 	s.mu.Unlock()
 	s.arrive <- tid
 	<-ch
